@@ -1,4 +1,1510 @@
+//! C02 / C03 / C04 twins: strided signed intervals (`Interval`) and the interval value domain
+//! (`IntervalDomain`, plus `BitvectorDomain::merge`) against a reference written from the
+//! property statements.
+//!
+//! Reference semantics (all over `(w, u128)` = width in bits + unsigned value of the low `w` bits):
+//!   gamma(I) = { v : start <=s v <=s end  and  (stride == 0 ? v == start : (v - start) mod stride == 0) }
+//!   inv(I)   = widths of start/end equal, start <=s end, (stride == 0) <=> (start == end),
+//!              stride > 0 ==> (end - start) mod stride == 0
+//!   gamma(IntervalDomain) = gamma(its interval)   (widening hints never change the represented set)
+//!
+//! For every twin the result must have the P-Code result width and satisfy `inv`; the twin-specific
+//! clause (soundness of an operation, superset for merges, "keeps every member that satisfies the
+//! condition" for the specialisations) is checked on every member of the inputs (all members if the
+//! input has at most `cap` members, a boundary-biased sample otherwise).  A panic of the real function
+//! on a well-formed, well-sized input is reported as a disagreement.
+//!
+//! `case` (search only): `OpName`, `wN` (N in 8,16,32,64) or `OpName:wN`.
+use crate::c01::{ref_bin, ref_cast, ref_un, BIN_OPS, CAST_OPS, UN_OPS};
+use crate::util::*;
+use apint::Width;
+use cwe_checker_lib::abstract_domain::{
+    AbstractDomain, BitvectorDomain, Interval, IntervalDomain, RegisterDomain,
+    SpecializeByConditional,
+};
+use cwe_checker_lib::intermediate_representation::*;
 use serde_json::{json, Value};
-pub fn search(_twin: &str, _case: Option<&str>, _seed: u64) -> Option<Value> { None }
-pub fn replay(_twin: &str, input: &Value) -> Value { json!({"agrees": true, "input": input, "note": "no twin"}) }
-pub fn sweep(twin: &str, _seed: u64) -> Value { json!({"twin": twin, "disagreements": 0}) }
+use std::panic::{catch_unwind, AssertUnwindSafe};
+use std::rc::Rc;
+
+// ---------------------------------------------------------------------------------------------
+// reference side
+// ---------------------------------------------------------------------------------------------
+
+/// membership in gamma of the triple (start, end, stride) of width w
+fn in_gamma(w: u32, start: u128, end: u128, stride: u64, v: u128) -> bool {
+    let (s, e, x) = (sval(w, start), sval(w, end), sval(w, v));
+    if x < s || x > e {
+        return false;
+    }
+    match stride {
+        0 => v == start,
+        1 => true,
+        _ => (v.wrapping_sub(start) & mask(w)) % stride as u128 == 0,
+    }
+}
+
+/// An input interval (reference side). `lo` / `hi` are the values handed to
+/// `update_widening_lower_bound` / `update_widening_upper_bound` (IntervalDomain twins only).
+#[derive(Clone, Debug, PartialEq)]
+pub struct Dom {
+    pub w: u32,
+    pub start: u128,
+    pub end: u128,
+    pub stride: u64,
+    pub lo: Option<u128>,
+    pub hi: Option<u128>,
+}
+
+impl Dom {
+    fn new(w: u32, s: i128, e: i128, stride: u64) -> Dom {
+        Dom { w, start: trunc(w, s), end: trunc(w, e), stride, lo: None, hi: None }
+    }
+    fn ss(&self) -> i128 {
+        sval(self.w, self.start)
+    }
+    fn se(&self) -> i128 {
+        sval(self.w, self.end)
+    }
+    fn span(&self) -> u128 {
+        self.end.wrapping_sub(self.start) & mask(self.w)
+    }
+    fn inv(&self) -> bool {
+        self.ss() <= self.se()
+            && (self.stride == 0) == (self.start == self.end)
+            && (self.stride == 0 || self.span() % self.stride as u128 == 0)
+    }
+    fn count(&self) -> u128 {
+        if self.stride == 0 { 1 } else { self.span() / self.stride as u128 + 1 }
+    }
+    fn nth(&self, k: u128) -> u128 {
+        self.start.wrapping_add(k.wrapping_mul(self.stride as u128)) & mask(self.w)
+    }
+    fn has(&self, v: u128) -> bool {
+        in_gamma(self.w, self.start, self.end, self.stride, v)
+    }
+    /// gamma(self) is a subset of gamma(other); both satisfy inv
+    fn subset_of(&self, other: &Dom) -> bool {
+        if !other.has(self.start) || !other.has(self.end) {
+            return false;
+        }
+        if self.stride == 0 {
+            return true;
+        }
+        // two different members of `other` => other.stride > 0
+        self.stride as u128 % other.stride as u128 == 0
+    }
+    /// the plain range start..=end with stride 1 (0 for a single value)
+    fn range(&self) -> Dom {
+        Dom { stride: (self.start != self.end) as u64, lo: None, hi: None, ..self.clone() }
+    }
+    fn json(&self) -> Value {
+        let mut o = json!({"start": hex(self.start), "end": hex(self.end), "stride": self.stride});
+        if let Some(l) = self.lo {
+            o["lower_hint"] = json!(hex(l));
+        }
+        if let Some(h) = self.hi {
+            o["upper_hint"] = json!(hex(h));
+        }
+        o
+    }
+    fn from_json(w: u32, v: &Value) -> Dom {
+        let h = |k: &str| v[k].as_str().map(unhex);
+        Dom {
+            w,
+            start: h("start").expect("interval without start"),
+            end: h("end").expect("interval without end"),
+            stride: v["stride"].as_u64().unwrap_or(0),
+            lo: h("lower_hint"),
+            hi: h("upper_hint"),
+        }
+    }
+}
+
+/// members of `d` that are checked: all of them if there are at most `cap`, else a sample
+/// (both ends, the neighbourhood of "interesting" values, seeded random ones)
+fn members_of(d: &Dom, cap: u128, rng: &mut Rng) -> Vec<u128> {
+    let n = d.count();
+    if n <= cap {
+        return (0..n).map(|k| d.nth(k)).collect();
+    }
+    let mut ks: Vec<u128> = vec![0, 1, 2, 3, n - 1, n - 2, n - 3, n - 4, n / 2];
+    let st = d.stride.max(1) as u128;
+    let w = d.w;
+    let anchors: [i128; 9] = [0, 1 << (w / 2), -(1 << (w / 2)), 1 << (w / 2 - 1), -(1 << (w / 2 - 1)), 256, -256, 128, -128];
+    for t in anchors {
+        if t > d.ss() && t <= d.se() {
+            let k = ((t - d.ss()) as u128) / st;
+            for kk in [k.saturating_sub(1), k, k + 1] {
+                if kk < n {
+                    ks.push(kk);
+                }
+            }
+        }
+    }
+    for _ in 0..24 {
+        let r = ((rng.next() as u128) << 64 | rng.next() as u128) % n;
+        ks.push(r);
+    }
+    ks.sort();
+    ks.dedup();
+    ks.into_iter().map(|k| d.nth(k)).collect()
+}
+
+#[derive(Clone)]
+struct Operand {
+    d: Dom,
+    m: Rc<Vec<u128>>,
+}
+fn operand(d: Dom, cap: u128, rng: &mut Rng) -> Operand {
+    let m = Rc::new(members_of(&d, cap, rng));
+    Operand { d, m }
+}
+
+// ---------------------------------------------------------------------------------------------
+// real side
+// ---------------------------------------------------------------------------------------------
+
+fn to_iv(d: &Dom) -> Interval {
+    Interval { start: mk(d.w, d.start), end: mk(d.w, d.end), stride: d.stride }
+}
+
+fn to_dom(d: &Dom) -> IntervalDomain {
+    let mut r: IntervalDomain = to_iv(d).into();
+    if let Some(l) = d.lo {
+        r.update_widening_lower_bound(&Some(mk(d.w, l)));
+    }
+    if let Some(h) = d.hi {
+        r.update_widening_upper_bound(&Some(mk(d.w, h)));
+    }
+    r
+}
+
+/// what was read back from the real crate
+#[derive(Clone, Debug)]
+struct Res {
+    ws: u32,
+    we: u32,
+    start: u128,
+    end: u128,
+    stride: u64,
+    hints: Vec<(u32, u128)>,
+}
+
+fn rd_iv(i: &Interval) -> Res {
+    let (ws, start) = val(&i.start);
+    let (we, end) = val(&i.end);
+    Res { ws, we, start, end, stride: i.stride, hints: vec![] }
+}
+
+/// private fields of an IntervalDomain through its Serialize impl
+fn rd_dom(d: &IntervalDomain) -> Res {
+    let v = serde_json::to_value(d).expect("IntervalDomain serialises");
+    let iv: Interval = serde_json::from_value(v["interval"].clone()).expect("interval field");
+    let mut r = rd_iv(&iv);
+    for k in ["widening_lower_bound", "widening_upper_bound"] {
+        let b: Option<Bitvector> = serde_json::from_value(v[k].clone()).expect("hint field");
+        if let Some(b) = b {
+            r.hints.push(val(&b));
+        }
+    }
+    r
+}
+
+impl Res {
+    fn inv_violation(&self, ew: u32) -> Option<String> {
+        if self.ws != self.we {
+            return Some(format!("width of start ({}) != width of end ({})", self.ws, self.we));
+        }
+        if self.ws != ew {
+            return Some(format!("result width {} != expected width {}", self.ws, ew));
+        }
+        let w = self.ws;
+        if sval(w, self.start) > sval(w, self.end) {
+            return Some("start <=s end".to_string());
+        }
+        if (self.stride == 0) != (self.start == self.end) {
+            return Some("(stride == 0) <=> (start == end)".to_string());
+        }
+        if self.stride > 0 && (self.end.wrapping_sub(self.start) & mask(w)) % self.stride as u128 != 0 {
+            return Some("(end - start) mod stride == 0".to_string());
+        }
+        for (hw, _) in &self.hints {
+            if *hw != w {
+                return Some(format!("widening hint of width {} in an interval of width {}", hw, w));
+            }
+        }
+        None
+    }
+    fn is_full(&self) -> bool {
+        let w = self.ws;
+        self.stride == 1 && self.start == 1u128 << (w - 1) && self.end == (1u128 << (w - 1)) - 1
+    }
+    fn has(&self, v: u128) -> bool {
+        in_gamma(self.ws, self.start, self.end, self.stride, v)
+    }
+    /// same represented set (both sides satisfy inv, so the representation is canonical)
+    fn same_set(&self, d: &Dom) -> bool {
+        self.ws == d.w && self.start == d.start && self.end == d.end && self.stride == d.stride
+    }
+    fn json(&self) -> Value {
+        let mut o = json!({"w": self.ws, "start": hex(self.start), "end": hex(self.end), "stride": self.stride});
+        if self.ws != self.we {
+            o["w_end"] = json!(self.we);
+        }
+        if !self.hints.is_empty() {
+            o["hints"] = json!(self.hints.iter().map(|(w, u)| json!({"w": w, "value": hex(*u)})).collect::<Vec<_>>());
+        }
+        o
+    }
+}
+
+fn guard<T>(f: impl FnOnce() -> T) -> Result<T, String> {
+    catch_unwind(AssertUnwindSafe(f)).map_err(|e| {
+        if let Some(s) = e.downcast_ref::<&str>() {
+            format!("panic: {}", s)
+        } else if let Some(s) = e.downcast_ref::<String>() {
+            format!("panic: {}", s)
+        } else {
+            "panic: (no message)".to_string()
+        }
+    })
+}
+
+fn quiet_panics() {
+    std::panic::set_hook(Box::new(|_| {}));
+}
+
+// ---------------------------------------------------------------------------------------------
+// cases
+// ---------------------------------------------------------------------------------------------
+
+struct IvCase<'a> {
+    twin: &'a str,
+    op: Option<&'a str>,
+    a: Operand,
+    b: Option<Operand>,
+    p0: u64,
+    p1: u64,
+    v: Option<u128>,
+}
+
+enum Case<'a> {
+    Iv(IvCase<'a>),
+    /// BitvectorDomain merge: None = Top
+    Bv { w: u32, a: Option<u128>, b: Option<u128> },
+}
+
+#[derive(Default)]
+struct Stats {
+    evals: u64,
+    members: u64,
+    fails: u64,
+    first: Option<Value>,
+    /// disagreements by violated clause
+    kinds: std::collections::BTreeMap<String, u64>,
+}
+
+/// short label of the violated clause of a disagreement
+fn kind_of(v: &Value) -> String {
+    if let Some(s) = v["observed"].as_str() {
+        if s.starts_with("panic") {
+            return s.chars().take(80).collect();
+        }
+        if s.starts_with("Err") {
+            return "Err although a member satisfies the condition".to_string();
+        }
+    }
+    match &v["expected"] {
+        Value::Object(m) => match m.iter().find(|(k, _)| k.starts_with("inv")) {
+            Some((k, msg)) => format!("{}: {}", k, msg.as_str().unwrap_or("")),
+            None if m.contains_key("because") => m["because"].as_str().unwrap_or("").to_string(),
+            None => m.keys().next().cloned().unwrap_or_default(),
+        },
+        other => format!("expected {}", other),
+    }
+}
+
+fn find<T: Copy>(table: &[(&'static str, T)], name: &str) -> (&'static str, T) {
+    *table.iter().find(|(n, _)| *n == name).unwrap_or_else(|| panic!("unknown op {}", name))
+}
+
+impl<'a> IvCase<'a> {
+    fn unary(twin: &'a str, a: &Operand) -> IvCase<'a> {
+        IvCase { twin, op: None, a: a.clone(), b: None, p0: 0, p1: 0, v: None }
+    }
+    fn binary(twin: &'a str, a: &Operand, b: &Operand) -> IvCase<'a> {
+        IvCase { twin, op: None, a: a.clone(), b: Some(b.clone()), p0: 0, p1: 0, v: None }
+    }
+    fn with_op(mut self, op: &'a str) -> Self {
+        self.op = Some(op);
+        self
+    }
+    fn with_p(mut self, p0: u64, p1: u64) -> Self {
+        self.p0 = p0;
+        self.p1 = p1;
+        self
+    }
+    fn with_v(mut self, v: u128) -> Self {
+        self.v = Some(v);
+        self
+    }
+
+    fn input_json(&self, x: Option<u128>, y: Option<u128>) -> Value {
+        let a = &self.a.d;
+        let mut o = json!({"fn": self.twin, "w": a.w, "a": a.json()});
+        if let Some(op) = self.op {
+            o["op"] = json!(op);
+        }
+        if let Some(b) = &self.b {
+            o["b"] = b.d.json();
+            if b.d.w != a.w {
+                o["wb"] = json!(b.d.w);
+            }
+        }
+        match self.twin {
+            "c02.zero_extend" | "c02.domain_cast" => o["t"] = json!(self.p0),
+            "c02.subpiece_higher" => o["low_byte"] = json!(self.p0),
+            "c02.subpiece_lower" => o["size"] = json!(self.p0),
+            "c02.subpiece" | "c02.domain_subpiece" => {
+                o["low_byte"] = json!(self.p0);
+                o["size"] = json!(self.p1);
+            }
+            "c02.adjust_to_stride_and_remainder" => {
+                o["stride"] = json!(self.p0);
+                o["remainder"] = json!(self.p1);
+            }
+            _ => (),
+        }
+        if let Some(v) = self.v {
+            o[if self.twin == "c02.contains" { "v" } else { "bound" }] = json!(hex(v));
+        }
+        if let Some(x) = x {
+            o["x"] = json!(hex(x));
+        }
+        if let Some(y) = y {
+            o["y"] = json!(hex(y));
+        }
+        o
+    }
+
+    fn fail(&self, x: Option<u128>, y: Option<u128>, observed: Value, expected: Value) -> Option<Value> {
+        Some(json!({"input": self.input_json(x, y), "observed": observed, "expected": expected}))
+    }
+}
+
+/// which members of `a` a twin quantifies over: the members on the stride, or the whole range
+fn uses_range(twin: &str) -> bool {
+    twin == "c02.adjust_to_stride_and_remainder"
+}
+/// twins whose `a` is a raw (start, end, stride) triple that need not satisfy inv
+fn raw_input(twin: &str) -> bool {
+    matches!(twin, "c02.new" | "c02.adjust_end" | "c02.adjust_start")
+}
+
+fn case_from_json<'a>(twin: &'a str, input: &'a Value) -> Case<'a> {
+    let w = input["w"].as_u64().expect("input without w") as u32;
+    if twin == "c03.bitvector_merge" {
+        let g = |k: &str| match input[k].as_str() {
+            Some("top") => None,
+            Some(s) => Some(unhex(s)),
+            None => panic!("bitvector_merge input without {}", k),
+        };
+        return Case::Bv { w, a: g("a"), b: g("b") };
+    }
+    let mut rng = Rng(0x5eed);
+    let hx = |k: &str| input[k].as_str().map(unhex);
+    let a = Dom::from_json(w, &input["a"]);
+    let am = match hx("x") {
+        Some(x) => vec![x],
+        None if raw_input(twin) => vec![],
+        None if uses_range(twin) => members_of(&a.range(), 65536, &mut rng),
+        None => members_of(&a, 65536, &mut rng),
+    };
+    let b = if input["b"].is_object() {
+        let wb = input["wb"].as_u64().map(|x| x as u32).unwrap_or(w);
+        let b = Dom::from_json(wb, &input["b"]);
+        let bm = match hx("y") {
+            Some(y) => vec![y],
+            None => members_of(&b, 65536, &mut rng),
+        };
+        Some(Operand { d: b, m: Rc::new(bm) })
+    } else {
+        None
+    };
+    let u = |k: &str| input[k].as_u64().unwrap_or(0);
+    let (p0, p1) = match twin {
+        "c02.zero_extend" | "c02.domain_cast" => (u("t"), 0),
+        "c02.subpiece_higher" => (u("low_byte"), 0),
+        "c02.subpiece_lower" => (u("size"), 0),
+        "c02.subpiece" | "c02.domain_subpiece" => (u("low_byte"), u("size")),
+        "c02.adjust_to_stride_and_remainder" => (u("stride"), u("remainder")),
+        _ => (0, 0),
+    };
+    Case::Iv(IvCase {
+        twin,
+        op: input["op"].as_str(),
+        a: Operand { d: a, m: Rc::new(am) },
+        b,
+        p0,
+        p1,
+        v: hx("v").or(hx("bound")),
+    })
+}
+
+// ---------------------------------------------------------------------------------------------
+// judging
+// ---------------------------------------------------------------------------------------------
+
+const NO_PANIC: &str = "no panic on a well-formed, well-sized input";
+
+/// soundness of an operation: for all x in gamma(a), y in gamma(b): f(x, y) in gamma(result)
+fn judge(c: &IvCase, out: Result<Res, String>, ew: u32, f: &dyn Fn(u128, u128) -> Option<u128>, st: &mut Stats) -> Option<Value> {
+    let r = match out {
+        Err(p) => return c.fail(None, None, json!(p), json!(NO_PANIC)),
+        Ok(r) => r,
+    };
+    if let Some(msg) = r.inv_violation(ew) {
+        return c.fail(None, None, json!({"result": r.json()}), json!({"inv(result)": msg, "width": ew}));
+    }
+    if r.is_full() {
+        return None;
+    }
+    let one = [0u128];
+    let ys: &[u128] = match &c.b {
+        Some(b) => &b.m,
+        None => &one,
+    };
+    for &x in c.a.m.iter() {
+        for &y in ys {
+            st.members += 1;
+            if let Some(v) = f(x, y) {
+                if !r.has(v) {
+                    return c.fail(Some(x), c.b.as_ref().map(|_| y), json!({"result": r.json()}), json!({"gamma(result) contains": hex(v)}));
+                }
+            }
+        }
+    }
+    None
+}
+
+/// specialisation: Ok(r) contains every member x with sat(x); Err only if there is none
+fn judge_opt(c: &IvCase, out: Result<Result<Res, String>, String>, ew: u32, sat: &dyn Fn(u128) -> bool, st: &mut Stats) -> Option<Value> {
+    match out {
+        Err(p) => c.fail(None, None, json!(p), json!(NO_PANIC)),
+        Ok(Err(msg)) => {
+            for &x in c.a.m.iter() {
+                st.members += 1;
+                if sat(x) {
+                    return c.fail(Some(x), None, json!(format!("Err({})", msg)), json!({"Ok(result) with gamma(result) containing": hex(x)}));
+                }
+            }
+            None
+        }
+        Ok(Ok(r)) => {
+            if let Some(msg) = r.inv_violation(ew) {
+                return c.fail(None, None, json!({"result": r.json()}), json!({"inv(result)": msg, "width": ew}));
+            }
+            if r.is_full() {
+                return None;
+            }
+            for &x in c.a.m.iter() {
+                st.members += 1;
+                if sat(x) && !r.has(x) {
+                    return c.fail(Some(x), None, json!({"result": r.json()}), json!({"gamma(result) contains": hex(x)}));
+                }
+            }
+            None
+        }
+    }
+}
+
+/// result represents exactly gamma(want)
+fn judge_exact(c: &IvCase, out: Result<Res, String>, want: &Dom) -> Option<Value> {
+    let r = match out {
+        Err(p) => return c.fail(None, None, json!(p), json!(NO_PANIC)),
+        Ok(r) => r,
+    };
+    if let Some(msg) = r.inv_violation(want.w) {
+        return c.fail(None, None, json!({"result": r.json()}), json!({"inv(result)": msg, "width": want.w}));
+    }
+    if !r.same_set(want) {
+        return c.fail(None, None, json!({"result": r.json()}), json!({"result": want.json()}));
+    }
+    None
+}
+
+/// merge: gamma(a) u gamma(b) subset gamma(m); gamma(b) subset gamma(a) ==> gamma(m) == gamma(a)
+fn judge_merge(c: &IvCase, out: Result<Res, String>, st: &mut Stats) -> Option<Value> {
+    let (a, b) = (&c.a.d, &c.b.as_ref().unwrap().d);
+    let r = match out {
+        Err(p) => return c.fail(None, None, json!(p), json!(NO_PANIC)),
+        Ok(r) => r,
+    };
+    if let Some(msg) = r.inv_violation(a.w) {
+        return c.fail(None, None, json!({"result": r.json()}), json!({"inv(result)": msg, "width": a.w}));
+    }
+    if !r.is_full() {
+        for &x in c.a.m.iter() {
+            st.members += 1;
+            if !r.has(x) {
+                return c.fail(Some(x), None, json!({"result": r.json()}), json!({"gamma(result) contains": hex(x), "member of": "a"}));
+            }
+        }
+        for &y in c.b.as_ref().unwrap().m.iter() {
+            st.members += 1;
+            if !r.has(y) {
+                return c.fail(None, Some(y), json!({"result": r.json()}), json!({"gamma(result) contains": hex(y), "member of": "b"}));
+            }
+        }
+    }
+    if b.subset_of(a) && !r.same_set(a) {
+        let why = if a == b { "merge(a, a) represents gamma(a)" } else { "gamma(b) subset of gamma(a) ==> gamma(merge(a, b)) == gamma(a)" };
+        return c.fail(None, None, json!({"result": r.json()}), json!({"result": a.range_free_json(), "because": why}));
+    }
+    None
+}
+
+impl Dom {
+    /// triple without hints (expected value of a represented set)
+    fn range_free_json(&self) -> Value {
+        json!({"w": self.w, "start": hex(self.start), "end": hex(self.end), "stride": self.stride})
+    }
+}
+
+fn expected_bin_width(op: BinOpType, wa: u32, wb: u32) -> u32 {
+    use BinOpType::*;
+    match op {
+        Piece => wa + wb,
+        IntEqual | IntNotEqual | IntLess | IntSLess | IntLessEqual | IntSLessEqual | IntCarry | IntSCarry | IntSBorrow
+        | BoolXOr | BoolAnd | BoolOr | FloatEqual | FloatNotEqual | FloatLess | FloatLessEqual => 8,
+        _ => wa,
+    }
+}
+
+fn expected_un_width(op: UnOpType, w: u32) -> u32 {
+    match op {
+        UnOpType::BoolNegate | UnOpType::FloatNaN => 8,
+        _ => w,
+    }
+}
+
+fn bsz(bits: u32) -> ByteSize {
+    bs((bits / 8) as u64)
+}
+
+fn check_iv(c: &IvCase, st: &mut Stats) -> Option<Value> {
+    st.evals += 1;
+    let a = &c.a.d;
+    let w = a.w;
+    let bd = c.b.as_ref().map(|b| &b.d);
+    match c.twin {
+        "c02.add" | "c02.sub" | "c02.signed_mul" => {
+            let b = bd.unwrap();
+            let (ia, ib) = (to_iv(a), to_iv(b));
+            let (op, out) = match c.twin {
+                "c02.add" => (BinOpType::IntAdd, guard(|| rd_iv(&ia.add(&ib)))),
+                "c02.sub" => (BinOpType::IntSub, guard(|| rd_iv(&ia.sub(&ib)))),
+                _ => (BinOpType::IntMult, guard(|| rd_iv(&ia.signed_mul(&ib)))),
+            };
+            judge(c, out, w, &|x, y| ref_bin(op, w, x, w, y).map(|r| r.1), st)
+        }
+        "c02.int_2_comp" => {
+            let ia = to_iv(a);
+            judge(c, guard(|| rd_iv(&ia.int_2_comp())), w, &|x, _| ref_un(UnOpType::Int2Comp, w, x).map(|r| r.1), st)
+        }
+        "c02.bitwise_not" => {
+            let ia = to_iv(a);
+            judge(c, guard(|| rd_iv(&ia.bitwise_not())), w, &|x, _| ref_un(UnOpType::IntNegate, w, x).map(|r| r.1), st)
+        }
+        "c02.zero_extend" => {
+            let (ia, t) = (to_iv(a), c.p0 as u32);
+            judge(c, guard(|| rd_iv(&ia.zero_extend(bsz(t)))), t, &|x, _| Some(x), st)
+        }
+        "c02.subpiece_higher" => {
+            let (ia, low) = (to_iv(a), c.p0 as u32);
+            judge(c, guard(|| rd_iv(&ia.subpiece_higher(bs(low as u64)))), w - 8 * low, &|x, _| Some(x >> (8 * low)), st)
+        }
+        "c02.subpiece_lower" => {
+            let (ia, size) = (to_iv(a), c.p0 as u32);
+            judge(c, guard(|| rd_iv(&ia.subpiece_lower(bs(size as u64)))), 8 * size, &|x, _| Some(x & mask(8 * size)), st)
+        }
+        "c02.subpiece" => {
+            let (ia, low, size) = (to_iv(a), c.p0 as u32, c.p1 as u32);
+            judge(c, guard(|| rd_iv(&ia.subpiece(bs(low as u64), bs(size as u64)))), 8 * size, &|x, _| Some((x >> (8 * low)) & mask(8 * size)), st)
+        }
+        "c02.piece" => {
+            let b = bd.unwrap();
+            let (ia, ib, wb) = (to_iv(a), to_iv(b), b.w);
+            judge(c, guard(|| rd_iv(&ia.piece(&ib))), w + wb, &|x, y| Some((x << wb) | y), st)
+        }
+        "c02.new" | "c02.adjust_end" => {
+            // members of [start, end] on the stride, counted from start
+            let n = if a.stride == 0 { 0 } else { a.span() / a.stride as u128 };
+            let e = a.start.wrapping_add(n * a.stride as u128) & mask(w);
+            let want = Dom { w, start: a.start, end: e, stride: if e == a.start { 0 } else { a.stride }, lo: None, hi: None };
+            let out = if c.twin == "c02.new" {
+                guard(|| rd_iv(&Interval::new(mk(w, a.start), mk(w, a.end), a.stride)))
+            } else {
+                let mut i = to_iv(a);
+                guard(move || {
+                    i.adjust_end_to_value_in_stride();
+                    rd_iv(&i)
+                })
+            };
+            judge_exact(c, out, &want)
+        }
+        "c02.adjust_start" => {
+            // members of [start, end] on the stride, counted from end
+            let n = if a.stride == 0 { 0 } else { a.span() / a.stride as u128 };
+            let s = a.end.wrapping_sub(n * a.stride as u128) & mask(w);
+            let want = Dom { w, start: s, end: a.end, stride: if s == a.end { 0 } else { a.stride }, lo: None, hi: None };
+            let mut i = to_iv(a);
+            let out = guard(move || {
+                i.adjust_start_to_value_in_stride();
+                rd_iv(&i)
+            });
+            judge_exact(c, out, &want)
+        }
+        "c02.adjust_to_stride_and_remainder" => {
+            let (ia, s, r) = (to_iv(a), c.p0, c.p1);
+            let out = guard(|| ia.adjust_to_stride_and_remainder(s, r).map(|i| rd_iv(&i)).map_err(|e| e.to_string()));
+            judge_opt(c, out, w, &|x| (sval(w, x) - r as i128).rem_euclid(s as i128) == 0, st)
+        }
+        "c02.contains" => {
+            let (ia, v) = (to_iv(a), c.v.unwrap());
+            let want = a.has(v);
+            match guard(|| ia.contains(&mk(w, v))) {
+                Err(p) => c.fail(None, None, json!(p), json!(NO_PANIC)),
+                Ok(got) if got != want => c.fail(None, None, json!(got), json!(want)),
+                _ => None,
+            }
+        }
+        "c02.domain_bin_op" => {
+            let b = bd.unwrap();
+            let (name, op) = find(BIN_OPS, c.op.expect("domain_bin_op without op"));
+            let _ = name;
+            let (da, db, wb) = (to_dom(a), to_dom(b), b.w);
+            let out = guard(|| rd_dom(&da.bin_op(op, &db)));
+            judge(c, out, expected_bin_width(op, w, wb), &|x, y| ref_bin(op, w, x, wb, y).map(|r| r.1), st)
+        }
+        "c02.domain_un_op" => {
+            let (_, op) = find(UN_OPS, c.op.expect("domain_un_op without op"));
+            let da = to_dom(a);
+            let out = guard(|| rd_dom(&da.un_op(op)));
+            let f = |x: u128, _: u128| {
+                if op == UnOpType::BoolNegate && x > 1 { None } else { ref_un(op, w, x).map(|r| r.1) }
+            };
+            judge(c, out, expected_un_width(op, w), &f, st)
+        }
+        "c02.domain_cast" => {
+            let (_, kind) = find(CAST_OPS, c.op.expect("domain_cast without op"));
+            let (da, t) = (to_dom(a), c.p0 as u32);
+            let out = guard(|| rd_dom(&da.cast(kind, bsz(t))));
+            judge(c, out, t, &|x, _| ref_cast(kind, w, x, t).map(|r| r.1), st)
+        }
+        "c02.domain_subpiece" => {
+            let (da, low, size) = (to_dom(a), c.p0 as u32, c.p1 as u32);
+            let out = guard(|| rd_dom(&da.subpiece(bs(low as u64), bs(size as u64))));
+            judge(c, out, 8 * size, &|x, _| Some((x >> (8 * low)) & mask(8 * size)), st)
+        }
+        "c03.interval_merge" => {
+            let (ia, ib) = (to_iv(a), to_iv(bd.unwrap()));
+            judge_merge(c, guard(|| rd_iv(&ia.signed_merge(&ib))), st)
+        }
+        "c03.domain_merge" => {
+            let (da, db) = (to_dom(a), to_dom(bd.unwrap()));
+            judge_merge(c, guard(|| rd_dom(&da.merge(&db))), st)
+        }
+        "c04.sle" | "c04.sge" | "c04.ule" | "c04.uge" | "c04.ne" => {
+            let (da, v) = (to_dom(a), c.v.unwrap());
+            let bv = mk(w, v);
+            let out = guard(|| {
+                match c.twin {
+                    "c04.sle" => da.add_signed_less_equal_bound(&bv),
+                    "c04.sge" => da.add_signed_greater_equal_bound(&bv),
+                    "c04.ule" => da.add_unsigned_less_equal_bound(&bv),
+                    "c04.uge" => da.add_unsigned_greater_equal_bound(&bv),
+                    _ => da.add_not_equal_bound(&bv),
+                }
+                .map(|d| rd_dom(&d))
+                .map_err(|e| e.to_string())
+            });
+            let sv = sval(w, v);
+            let twin = c.twin;
+            let sat = move |x: u128| match twin {
+                "c04.sle" => sval(w, x) <= sv,
+                "c04.sge" => sval(w, x) >= sv,
+                "c04.ule" => x <= v,
+                "c04.uge" => x >= v,
+                _ => x != v,
+            };
+            judge_opt(c, out, w, &sat, st)
+        }
+        "c04.intersect" => {
+            let b = bd.unwrap();
+            let (da, db) = (to_dom(a), to_dom(b));
+            let out = guard(|| da.intersect(&db).map(|d| rd_dom(&d)).map_err(|e| e.to_string()));
+            judge_opt(c, out, w, &|x| b.has(x), st)
+        }
+        "c04.interval_intersect" => {
+            let b = bd.unwrap();
+            let (ia, ib) = (to_iv(a), to_iv(b));
+            let out = guard(|| ia.signed_intersect(&ib).map(|i| rd_iv(&i)).map_err(|e| e.to_string()));
+            judge_opt(c, out, w, &|x| b.has(x), st)
+        }
+        other => panic!("unknown twin {}", other),
+    }
+}
+
+/// gamma of a BitvectorDomain value: Top = everything, Value(v) = {v}
+fn check_bv(w: u32, a: Option<u128>, b: Option<u128>, st: &mut Stats) -> Option<Value> {
+    st.evals += 1;
+    let mkd = |v: Option<u128>| match v {
+        Some(u) => BitvectorDomain::Value(mk(w, u)),
+        None => BitvectorDomain::Top(bsz(w)),
+    };
+    let js = |v: Option<u128>| match v {
+        Some(u) => json!(hex(u)),
+        None => json!("top"),
+    };
+    let input = json!({"fn": "c03.bitvector_merge", "w": w, "a": js(a), "b": js(b)});
+    let fail = |observed: Value, expected: Value| Some(json!({"input": input, "observed": observed, "expected": expected}));
+    let (da, db) = (mkd(a), mkd(b));
+    let m = match guard(|| da.merge(&db)) {
+        Err(p) => return fail(json!(p), json!(NO_PANIC)),
+        Ok(m) => m,
+    };
+    let (mw, mv) = match &m {
+        BitvectorDomain::Top(sz) => (sz.as_bit_length() as u32, None),
+        BitvectorDomain::Value(bv) => (bv.width().to_usize() as u32, Some(val(bv).1)),
+    };
+    let obs = json!({"w": mw, "value": js(mv)});
+    if mw != w {
+        return fail(obs, json!({"width": w}));
+    }
+    let has = |d: Option<u128>, v: u128| d.map_or(true, |u| u == v);
+    // members: all of a singleton; for Top all 8-bit values or a sample
+    let sample = |d: Option<u128>| -> Vec<u128> {
+        match d {
+            Some(u) => vec![u],
+            None if w == 8 => (0..256).collect(),
+            None => vec![0, 1, mask(w), 1 << (w - 1), (1 << (w - 1)) - 1, 0x1234 & mask(w)],
+        }
+    };
+    for v in sample(a).into_iter().chain(sample(b)) {
+        st.members += 1;
+        if !has(mv, v) {
+            return fail(obs, json!({"gamma(result) contains": hex(v)}));
+        }
+    }
+    // gamma(b) subset gamma(a) (includes a == b) ==> gamma(m) == gamma(a)
+    let b_in_a = a.is_none() || a == b;
+    if b_in_a && mv != a {
+        return fail(obs, json!({"w": w, "value": js(a), "because": "gamma(b) subset of gamma(a) ==> gamma(merge(a, b)) == gamma(a)"}));
+    }
+    None
+}
+
+fn check(c: &Case, st: &mut Stats) -> Option<Value> {
+    match c {
+        Case::Iv(c) => check_iv(c, st),
+        Case::Bv { w, a, b } => check_bv(*w, *a, *b, st),
+    }
+}
+
+// ---------------------------------------------------------------------------------------------
+// input space
+// ---------------------------------------------------------------------------------------------
+
+const B8: [i128; 18] = [-128, -127, -126, -100, -8, -3, -2, -1, 0, 1, 2, 3, 7, 8, 100, 125, 126, 127];
+const B8_SMALL: [i128; 10] = [-128, -127, -3, -1, 0, 1, 2, 8, 126, 127];
+const STRIDES8: [u64; 9] = [1, 2, 3, 4, 5, 7, 8, 16, 64];
+
+/// all well-formed 8-bit intervals with bounds in `bounds` and strides in STRIDES8 (0 for singletons),
+/// plus `nrand` seeded random (start, stride, count) intervals
+fn ivs8(bounds: &[i128], nrand: usize, rng: &mut Rng) -> Vec<Dom> {
+    let mut out: Vec<Dom> = Vec::new();
+    for &s in bounds {
+        for &e in bounds {
+            if s == e {
+                out.push(Dom::new(8, s, e, 0));
+            } else if s < e {
+                for st in STRIDES8 {
+                    if (e - s) % st as i128 == 0 {
+                        out.push(Dom::new(8, s, e, st));
+                    }
+                }
+            }
+        }
+    }
+    for _ in 0..nrand {
+        let st = STRIDES8[(rng.next() % 9) as usize];
+        let s = (rng.next() % 256) as i128 - 128;
+        let maxcount = (127 - s) / st as i128 + 1;
+        let d = if maxcount < 2 {
+            Dom::new(8, s, s, 0)
+        } else {
+            let count = 2 + (rng.next() % (maxcount as u64 - 1)) as i128;
+            Dom::new(8, s, s + (count - 1) * st as i128, st)
+        };
+        if !out.contains(&d) {
+            out.push(d);
+        }
+    }
+    debug_assert!(out.iter().all(|d| d.inv()));
+    out
+}
+
+fn ops8(bounds: &[i128], nrand: usize, rng: &mut Rng) -> Vec<Operand> {
+    ivs8(bounds, nrand, rng).into_iter().map(|d| operand(d, 256, rng)).collect()
+}
+
+fn pick_stride(w: u32, rng: &mut Rng) -> u64 {
+    let lim: u64 = if w >= 64 { 1 << 62 } else { 1 << (w - 2) };
+    let s = match rng.next() % 8 {
+        0..=2 => STRIDES8[(rng.next() % 9) as usize],
+        3 => 1u64 << (rng.next() % (w as u64 - 2)),
+        4 => (1u64 << (rng.next() % (w as u64 - 2))).wrapping_add(if rng.next() % 2 == 0 { 1 } else { u64::MAX }),
+        5 => [255u64, 256, 257, 65535, 65536, 65537][(rng.next() % 6) as usize],
+        _ => rng.next() % lim,
+    };
+    s.clamp(1, lim)
+}
+
+/// seeded random well-formed interval of width w in {16, 32, 64}: at most 64 members, placed near a
+/// boundary (signed min / max, 0 / -1, +-2^(w/2), +-2^(w/2-1), byte boundary) or, one time in eight,
+/// a "large" interval between two boundary-biased values (its members are sampled)
+fn gen_wide(w: u32, rng: &mut Rng) -> Dom {
+    let (min, max) = (-(1i128 << (w - 1)), (1i128 << (w - 1)) - 1);
+    loop {
+        let stride = pick_stride(w, rng);
+        if rng.next() % 8 == 0 {
+            let (p, q) = (sval(w, rng.interesting(w)), sval(w, rng.interesting(w)));
+            let (s, e) = (p.min(q), p.max(q));
+            let e = s + ((e - s) / stride as i128) * stride as i128;
+            return Dom::new(w, s, e, if s == e { 0 } else { stride });
+        }
+        let count: i128 = match rng.next() % 4 {
+            0 => 1,
+            1 => 2 + (rng.next() % 3) as i128,
+            _ => 2 + (rng.next() % 63) as i128,
+        };
+        let span = (count - 1) * stride as i128;
+        if span > max - min {
+            continue;
+        }
+        let anchor: i128 = match rng.next() % 11 {
+            0 => min,
+            1 => max,
+            2 => 0,
+            3 => -1,
+            4 => 1 << (w / 2),
+            5 => -(1 << (w / 2)),
+            6 => 1 << (w / 2 - 1),
+            7 => -(1 << (w / 2 - 1)),
+            8 => 256,
+            9 => -256,
+            _ => sval(w, rng.interesting(w)),
+        };
+        let delta = (rng.next() % 4) as i128;
+        let mut s = match rng.next() % 3 {
+            0 => anchor + delta,
+            1 => anchor - delta - span,
+            _ => anchor - (rng.next() as i128 % count) * stride as i128 - delta,
+        };
+        if s < min {
+            s = min + delta;
+        }
+        if s + span > max {
+            s = max - delta - span;
+        }
+        if s < min || s + span > max {
+            continue;
+        }
+        let d = Dom::new(w, s, s + span, if count == 1 { 0 } else { stride });
+        debug_assert!(d.inv());
+        return d;
+    }
+}
+
+/// an interval related to `a` (so that intersections / inclusions are not always trivial)
+fn gen_related(a: &Dom, rng: &mut Rng) -> Dom {
+    let w = a.w;
+    let (min, max) = (-(1i128 << (w - 1)), (1i128 << (w - 1)) - 1);
+    let n = a.count();
+    for _ in 0..20 {
+        let k = ((rng.next() as u128) << 64 | rng.next() as u128) % n;
+        let delta = match rng.next() % 3 { 0 => 0, 1 => 1, _ => -1 } * (rng.next() % 2) as i128;
+        let s = sval(w, a.nth(k)) + delta;
+        let stride: u64 = match rng.next() % 5 {
+            0 => a.stride.max(1),
+            1 => a.stride.max(1).saturating_mul(1 + rng.next() % 4),
+            2 => STRIDES8[(rng.next() % 9) as usize],
+            3 => (a.stride.max(1) / 2).max(1),
+            _ => pick_stride(w, rng),
+        };
+        let count: i128 = match rng.next() % 3 { 0 => 1, _ => 2 + (rng.next() % 63) as i128 };
+        let span = match (count - 1).checked_mul(stride as i128) { Some(x) => x, None => continue };
+        if s < min || s > max || s + span > max {
+            continue;
+        }
+        let d = Dom::new(w, s, s + span, if count == 1 { 0 } else { stride });
+        debug_assert!(d.inv());
+        return d;
+    }
+    gen_wide(w, rng)
+}
+
+fn wide_ops(w: u32, n: usize, cap: u128, rng: &mut Rng) -> Vec<Operand> {
+    (0..n).map(|_| { let d = gen_wide(w, rng); operand(d, cap, rng) }).collect()
+}
+
+fn wide_pair(w: u32, cap: u128, rng: &mut Rng) -> (Operand, Operand) {
+    let a = gen_wide(w, rng);
+    let b = match rng.next() % 5 {
+        0 => a.clone(),
+        1 | 2 => gen_related(&a, rng),
+        _ => gen_wide(w, rng),
+    };
+    (operand(a, cap, rng), operand(b, cap, rng))
+}
+
+/// widening-hint variants of an interval: none, lower at start-1 / start-8, upper at end+1 / end+8,
+/// both, and both at two strides distance; only where representable
+fn hint_variants(o: &Operand) -> Vec<Operand> {
+    let d = &o.d;
+    let w = d.w;
+    let (min, max) = (-(1i128 << (w - 1)), (1i128 << (w - 1)) - 1);
+    let (s, e, st) = (d.ss(), d.se(), d.stride.max(1) as i128);
+    let cands: [(Option<i128>, Option<i128>); 8] = [
+        (None, None),
+        (Some(s - 1), None),
+        (Some(s - 8), None),
+        (None, Some(e + 1)),
+        (None, Some(e + 8)),
+        (Some(s - 1), Some(e + 1)),
+        (Some(s - 8), Some(e + 8)),
+        (Some(s - 2 * st), Some(e + 2 * st)),
+    ];
+    let mut out: Vec<Operand> = Vec::new();
+    for (lo, hi) in cands {
+        if lo.map_or(false, |l| l < min) || hi.map_or(false, |h| h > max) {
+            continue;
+        }
+        let nd = Dom { lo: lo.map(|l| trunc(w, l)), hi: hi.map(|h| trunc(w, h)), ..d.clone() };
+        if !out.iter().any(|x| x.d == nd) {
+            out.push(Operand { d: nd, m: o.m.clone() });
+        }
+    }
+    out
+}
+
+fn random_hint(o: &Operand, rng: &mut Rng) -> Operand {
+    let v = hint_variants(o);
+    v[(rng.next() % v.len() as u64) as usize].clone()
+}
+
+struct Filt {
+    op: Option<String>,
+    w: Option<u32>,
+}
+impl Filt {
+    fn parse(case: Option<&str>) -> Filt {
+        let mut f = Filt { op: None, w: None };
+        for tok in case.unwrap_or("").split(':').filter(|t| !t.is_empty()) {
+            match tok.strip_prefix('w').and_then(|n| n.parse::<u32>().ok()) {
+                Some(n) => f.w = Some(n),
+                None => f.op = Some(tok.to_string()),
+            }
+        }
+        f
+    }
+    fn w(&self, w: u32) -> bool {
+        self.w.map_or(true, |x| x == w)
+    }
+    fn op(&self, name: &str) -> bool {
+        self.op.as_deref().map_or(true, |x| x == name)
+    }
+}
+
+const WIDE: [u32; 3] = [16, 32, 64];
+
+/// bounds worth trying against interval `d` (wide widths): members +-1, range ends, extremes, random
+fn bounds_for(d: &Dom, m: &[u128], rng: &mut Rng) -> Vec<u128> {
+    let w = d.w;
+    let mut out: Vec<u128> = vec![0, 1, mask(w), 1 << (w - 1), (1 << (w - 1)) - 1];
+    for &x in m.iter().take(6).chain(m.iter().rev().take(6)) {
+        for dl in [-1i128, 0, 1] {
+            out.push(trunc(w, sval(w, x) + dl));
+        }
+    }
+    for _ in 0..6 {
+        out.push(rng.interesting(w));
+    }
+    out.sort();
+    out.dedup();
+    out
+}
+
+/// Enumerates the input space of `twin`; `visit` returns true to stop.
+fn enumerate(twin: &str, case: Option<&str>, seed: u64, visit: &mut dyn FnMut(&Case) -> bool) {
+    let mut rng = Rng(seed);
+    let f = Filt::parse(case);
+    macro_rules! v {
+        ($c:expr) => {
+            if visit(&Case::Iv($c)) {
+                return;
+            }
+        };
+    }
+    match twin {
+        // ---- Interval, binary -------------------------------------------------------------------
+        "c02.add" | "c02.sub" | "c02.signed_mul" | "c03.interval_merge" | "c04.interval_intersect" => {
+            if f.w(8) {
+                let l = ops8(&B8, 150, &mut rng);
+                for a in &l {
+                    for b in &l {
+                        v!(IvCase::binary(twin, a, b));
+                    }
+                }
+            }
+            for w in WIDE {
+                if !f.w(w) {
+                    continue;
+                }
+                for _ in 0..6000 {
+                    let (a, b) = wide_pair(w, 64, &mut rng);
+                    v!(IvCase::binary(twin, &a, &b));
+                }
+            }
+        }
+        "c02.piece" => {
+            for (wa, wb) in [(8u32, 8u32), (8, 16), (16, 8), (16, 16), (8, 32), (32, 8), (32, 32), (16, 64), (64, 16), (64, 64), (8, 64), (64, 8)] {
+                if !f.w(wa) {
+                    continue;
+                }
+                if (wa, wb) == (8, 8) {
+                    let l = ops8(&B8, 60, &mut rng);
+                    for a in &l {
+                        for b in &l {
+                            v!(IvCase::binary(twin, a, b));
+                        }
+                    }
+                    continue;
+                }
+                let la = if wa == 8 { ops8(&B8_SMALL, 20, &mut rng) } else { wide_ops(wa, 60, 64, &mut rng) };
+                let lb = if wb == 8 { ops8(&B8_SMALL, 20, &mut rng) } else { wide_ops(wb, 60, 64, &mut rng) };
+                for a in &la {
+                    for b in &lb {
+                        v!(IvCase::binary(twin, a, b));
+                    }
+                }
+            }
+        }
+        // ---- Interval, unary --------------------------------------------------------------------
+        "c02.int_2_comp" | "c02.bitwise_not" => {
+            if f.w(8) {
+                for a in &ops8(&B8, 300, &mut rng) {
+                    v!(IvCase::unary(twin, a));
+                }
+            }
+            for w in WIDE {
+                if f.w(w) {
+                    for a in &wide_ops(w, 6000, 256, &mut rng) {
+                        v!(IvCase::unary(twin, a));
+                    }
+                }
+            }
+        }
+        "c02.zero_extend" => {
+            for w in [8u32, 16, 32, 64] {
+                if !f.w(w) {
+                    continue;
+                }
+                let l = if w == 8 { ops8(&B8, 300, &mut rng) } else { wide_ops(w, 3000, if w == 16 { 65536 } else { 256 }, &mut rng) };
+                for a in &l {
+                    for t in [8u32, 16, 32, 64, 128] {
+                        if t >= w {
+                            v!(IvCase::unary(twin, a).with_p(t as u64, 0));
+                        }
+                    }
+                }
+            }
+        }
+        "c02.subpiece_higher" | "c02.subpiece_lower" | "c02.subpiece" | "c02.domain_subpiece" => {
+            for w in [8u32, 16, 32, 64] {
+                if !f.w(w) {
+                    continue;
+                }
+                let bytes = (w / 8) as u64;
+                let l = if w == 8 { ops8(&B8, 100, &mut rng) } else { wide_ops(w, if w == 16 { 1500 } else { 2500 }, if w == 16 { 65536 } else { 256 }, &mut rng) };
+                for a in &l {
+                    let vars = if twin == "c02.domain_subpiece" { hint_variants(a) } else { vec![a.clone()] };
+                    for a in &vars {
+                        match twin {
+                            "c02.subpiece_higher" => {
+                                for low in 0..bytes {
+                                    v!(IvCase::unary(twin, a).with_p(low, 0));
+                                }
+                            }
+                            "c02.subpiece_lower" => {
+                                for size in 1..=bytes {
+                                    v!(IvCase::unary(twin, a).with_p(size, 0));
+                                }
+                            }
+                            _ => {
+                                for low in 0..bytes {
+                                    for size in 1..=(bytes - low) {
+                                        v!(IvCase::unary(twin, a).with_p(low, size));
+                                    }
+                                }
+                            }
+                        }
+                    }
+                }
+            }
+        }
+        "c02.new" | "c02.adjust_end" | "c02.adjust_start" => {
+            // raw triples: start <=s end, any stride
+            if f.w(8) {
+                for s in -128i128..=127 {
+                    for e in s..=127 {
+                        for st in [0u64, 1, 2, 3, 4, 5, 6, 7, 8, 16, 64, 127, 128, 255, 256, 1000] {
+                            let a = Operand { d: Dom::new(8, s, e, st), m: Rc::new(vec![]) };
+                            v!(IvCase::unary(twin, &a));
+                        }
+                    }
+                }
+            }
+            for w in WIDE {
+                if !f.w(w) {
+                    continue;
+                }
+                for _ in 0..60000 {
+                    let (p, q) = (sval(w, rng.interesting(w)), sval(w, rng.interesting(w)));
+                    let st = match rng.next() % 6 { 0 => 0, 1 => rng.next(), _ => pick_stride(w, &mut rng) };
+                    let a = Operand { d: Dom::new(w, p.min(q), p.max(q), st), m: Rc::new(vec![]) };
+                    v!(IvCase::unary(twin, &a));
+                }
+            }
+        }
+        "c02.adjust_to_stride_and_remainder" => {
+            let rems = |st: u64, rng: &mut Rng| -> Vec<u64> {
+                let mut r: Vec<u64> = (0..st.min(16)).collect();
+                r.extend([st - 1, st / 2, st, st + 1, rng.next() % st]);
+                r.sort();
+                r.dedup();
+                r
+            };
+            if f.w(8) {
+                for d in ivs8(&B8, 100, &mut rng) {
+                    let a = Operand { m: Rc::new(members_of(&d.range(), 256, &mut rng)), d };
+                    for st in [1u64, 2, 3, 4, 5, 7, 8, 16, 64, 100, 255, 256] {
+                        for r in rems(st, &mut rng) {
+                            v!(IvCase::unary(twin, &a).with_p(st, r));
+                        }
+                    }
+                }
+            }
+            for w in WIDE {
+                if !f.w(w) {
+                    continue;
+                }
+                for _ in 0..4000 {
+                    let d = gen_wide(w, &mut rng);
+                    let a = Operand { m: Rc::new(members_of(&d.range(), 256, &mut rng)), d };
+                    for _ in 0..4 {
+                        let st = match rng.next() % 3 { 0 => a.d.stride.max(1), 1 => rng.next() | 1, _ => pick_stride(w, &mut rng) };
+                        let r = match rng.next() % 3 {
+                            0 => sval(w, a.d.start).rem_euclid(st as i128) as u64,
+                            1 => rng.next() % st,
+                            _ => sval(w, a.d.end).rem_euclid(st as i128) as u64,
+                        };
+                        v!(IvCase::unary(twin, &a).with_p(st, r));
+                    }
+                }
+            }
+        }
+        "c02.contains" => {
+            if f.w(8) {
+                for a in &ops8(&B8, 300, &mut rng) {
+                    for x in 0..256u128 {
+                        v!(IvCase::unary(twin, a).with_v(x));
+                    }
+                }
+            }
+            for w in WIDE {
+                if !f.w(w) {
+                    continue;
+                }
+                for a in &wide_ops(w, 4000, 64, &mut rng) {
+                    let mut vs: Vec<u128> = Vec::new();
+                    for &x in a.m.iter() {
+                        vs.extend([x, trunc(w, sval(w, x) + 1), trunc(w, sval(w, x) - 1)]);
+                    }
+                    vs.extend([0, mask(w), 1 << (w - 1), (1 << (w - 1)) - 1, rng.interesting(w), rng.interesting(w)]);
+                    vs.sort();
+                    vs.dedup();
+                    for x in vs {
+                        v!(IvCase::unary(twin, a).with_v(x));
+                    }
+                }
+            }
+        }
+        // ---- IntervalDomain as RegisterDomain ---------------------------------------------------
+        "c02.domain_bin_op" => {
+            let single_op = f.op.is_some();
+            for (name, op) in BIN_OPS {
+                if !f.op(name) {
+                    continue;
+                }
+                use BinOpType::*;
+                let shift = matches!(op, IntLeft | IntRight | IntSRight);
+                let boolean = matches!(op, BoolAnd | BoolOr | BoolXOr);
+                if *op == Piece {
+                    for (wa, wb) in [(8u32, 8u32), (8, 16), (16, 8), (32, 32), (64, 64), (8, 64), (64, 8)] {
+                        if !f.w(wa) {
+                            continue;
+                        }
+                        let la = if wa == 8 { ops8(&B8_SMALL, 15, &mut rng) } else { wide_ops(wa, 50, 64, &mut rng) };
+                        let lb = if wb == 8 { ops8(&B8_SMALL, 15, &mut rng) } else { wide_ops(wb, 50, 64, &mut rng) };
+                        for a in &la {
+                            for b in &lb {
+                                v!(IvCase::binary(twin, a, b).with_op(name));
+                                let (ha, hb) = (random_hint(a, &mut rng), random_hint(b, &mut rng));
+                                v!(IvCase::binary(twin, &ha, &hb).with_op(name));
+                            }
+                        }
+                    }
+                    continue;
+                }
+                if f.w(8) {
+                    let l = if single_op { ops8(&B8, 100, &mut rng) } else { ops8(&B8_SMALL, 30, &mut rng) };
+                    for a in &l {
+                        for b in &l {
+                            v!(IvCase::binary(twin, a, b).with_op(name));
+                            let (ha, hb) = (random_hint(a, &mut rng), random_hint(b, &mut rng));
+                            if ha.d != a.d || hb.d != b.d {
+                                v!(IvCase::binary(twin, &ha, &hb).with_op(name));
+                            }
+                        }
+                    }
+                }
+                if boolean {
+                    continue; // booleans are 1 byte in P-Code
+                }
+                // small 1-byte shift amounts for every width
+                let amounts: Vec<Operand> = if shift {
+                    let mut l: Vec<Dom> = (0..=66).map(|k| Dom::new(8, k, k, 0)).collect();
+                    l.extend([Dom::new(8, 0, 3, 1), Dom::new(8, 1, 65, 1), Dom::new(8, 0, 64, 8), Dom::new(8, -1, -1, 0), Dom::new(8, -128, -128, 0)]);
+                    l.into_iter().map(|d| operand(d, 256, &mut rng)).collect()
+                } else {
+                    vec![]
+                };
+                for w in [8u32, 16, 32, 64] {
+                    if !f.w(w) {
+                        continue;
+                    }
+                    if shift {
+                        let la = if w == 8 { ops8(&B8_SMALL, 20, &mut rng) } else { wide_ops(w, 60, 64, &mut rng) };
+                        for a in &la {
+                            for b in &amounts {
+                                let ha = random_hint(a, &mut rng);
+                                v!(IvCase::binary(twin, &ha, b).with_op(name));
+                            }
+                        }
+                    }
+                    if w == 8 {
+                        continue;
+                    }
+                    for _ in 0..(if single_op { 6000 } else { 800 }) {
+                        let (a, b) = wide_pair(w, 64, &mut rng);
+                        let (a, b) = if rng.next() % 2 == 0 { (a, b) } else { (random_hint(&a, &mut rng), random_hint(&b, &mut rng)) };
+                        v!(IvCase::binary(twin, &a, &b).with_op(name));
+                    }
+                }
+            }
+        }
+        "c02.domain_un_op" => {
+            for (name, op) in UN_OPS {
+                if !f.op(name) {
+                    continue;
+                }
+                for w in [8u32, 16, 32, 64] {
+                    if !f.w(w) || (*op == UnOpType::BoolNegate && w != 8) {
+                        continue;
+                    }
+                    let l = if w == 8 { ops8(&B8, 150, &mut rng) } else { wide_ops(w, 1500, 256, &mut rng) };
+                    for a in &l {
+                        for a in &hint_variants(a) {
+                            v!(IvCase::unary(twin, a).with_op(name));
+                        }
+                    }
+                }
+            }
+        }
+        "c02.domain_cast" => {
+            for (name, kind) in CAST_OPS {
+                if !f.op(name) {
+                    continue;
+                }
+                let ext = matches!(kind, CastOpType::IntZExt | CastOpType::IntSExt);
+                for w in [8u32, 16, 32, 64] {
+                    if !f.w(w) {
+                        continue;
+                    }
+                    let l = if w == 8 { ops8(&B8, 100, &mut rng) } else { wide_ops(w, 600, 256, &mut rng) };
+                    for a in &l {
+                        for a in &hint_variants(a) {
+                            for t in [8u32, 16, 32, 64, 128] {
+                                if ext && t < w {
+                                    continue;
+                                }
+                                v!(IvCase::unary(twin, a).with_op(name).with_p(t as u64, 0));
+                            }
+                        }
+                    }
+                }
+            }
+        }
+        // ---- merges -----------------------------------------------------------------------------
+        "c03.domain_merge" | "c04.intersect" => {
+            if f.w(8) {
+                let l = ops8(&B8, 60, &mut rng);
+                for a in &l {
+                    for b in &l {
+                        v!(IvCase::binary(twin, a, b));
+                        // two seeded hint combinations per pair
+                        for _ in 0..2 {
+                            let (ha, hb) = (random_hint(a, &mut rng), random_hint(b, &mut rng));
+                            if ha.d != a.d || hb.d != b.d {
+                                v!(IvCase::binary(twin, &ha, &hb));
+                            }
+                        }
+                    }
+                }
+                // all hint combinations on a smaller set
+                let l = ops8(&B8_SMALL, 20, &mut rng);
+                for a in &l {
+                    for b in &l {
+                        for ha in &hint_variants(a) {
+                            for hb in &hint_variants(b) {
+                                v!(IvCase::binary(twin, ha, hb));
+                            }
+                        }
+                    }
+                }
+            }
+            for w in WIDE {
+                if !f.w(w) {
+                    continue;
+                }
+                for _ in 0..3000 {
+                    let (a, b) = wide_pair(w, 64, &mut rng);
+                    v!(IvCase::binary(twin, &a, &b));
+                    let (ha, hb) = (random_hint(&a, &mut rng), random_hint(&b, &mut rng));
+                    v!(IvCase::binary(twin, &ha, &hb));
+                }
+            }
+        }
+        "c03.bitvector_merge" => {
+            if f.w(8) {
+                let all: Vec<Option<u128>> = std::iter::once(None).chain((0..256).map(Some)).collect();
+                for a in &all {
+                    for b in &all {
+                        if visit(&Case::Bv { w: 8, a: *a, b: *b }) {
+                            return;
+                        }
+                    }
+                }
+            }
+            for w in WIDE {
+                if !f.w(w) {
+                    continue;
+                }
+                for _ in 0..5000 {
+                    let a = if rng.next() % 4 == 0 { None } else { Some(rng.interesting(w)) };
+                    let b = match rng.next() % 4 { 0 => None, 1 => a, _ => Some(rng.interesting(w)) };
+                    if visit(&Case::Bv { w, a, b }) {
+                        return;
+                    }
+                }
+            }
+        }
+        // ---- specialisation by a conditional ----------------------------------------------------
+        "c04.sle" | "c04.sge" | "c04.ule" | "c04.uge" | "c04.ne" => {
+            if f.w(8) {
+                for a in &ops8(&B8, 100, &mut rng) {
+                    for a in &hint_variants(a) {
+                        for x in 0..256u128 {
+                            v!(IvCase::unary(twin, a).with_v(x));
+                        }
+                    }
+                }
+            }
+            for w in WIDE {
+                if !f.w(w) {
+                    continue;
+                }
+                for a in &wide_ops(w, 1500, 64, &mut rng) {
+                    let bounds = bounds_for(&a.d, &a.m, &mut rng);
+                    for a in &hint_variants(a) {
+                        for &x in &bounds {
+                            v!(IvCase::unary(twin, a).with_v(x));
+                        }
+                    }
+                }
+            }
+        }
+        _ => (),
+    }
+}
+
+// ---------------------------------------------------------------------------------------------
+// entry points
+// ---------------------------------------------------------------------------------------------
+
+fn drive(twin: &str, case: Option<&str>, seed: u64, stop_at_first: bool) -> Stats {
+    quiet_panics();
+    let mut st = Stats::default();
+    let dump: u64 = std::env::var("VERIF_DUMP").ok().and_then(|s| s.parse().ok()).unwrap_or(0);
+    enumerate(twin, case, seed, &mut |c| {
+        if let Some(v) = check(c, &mut st) {
+            st.fails += 1;
+            let kind = kind_of(&v);
+            let seen = st.kinds.entry(kind).or_insert(0);
+            *seen += 1;
+            // VERIF_DUMP=n: print the first n disagreements of every kind to stderr
+            if *seen <= dump {
+                eprintln!("{}", v);
+            }
+            if st.first.is_none() {
+                st.first = Some(v);
+            }
+            return stop_at_first;
+        }
+        false
+    });
+    st
+}
+
+pub fn search(twin: &str, case: Option<&str>, seed: u64) -> Option<Value> {
+    drive(twin, case, seed, true).first
+}
+
+pub fn replay(twin: &str, input: &Value) -> Value {
+    quiet_panics();
+    let twin = input["fn"].as_str().filter(|f| f.starts_with("c0")).unwrap_or(twin);
+    let mut st = Stats::default();
+    let c = case_from_json(twin, input);
+    match check(&c, &mut st) {
+        Some(v) => json!({"agrees": false, "input": input, "observed": v["observed"], "expected": v["expected"]}),
+        None => json!({"agrees": true, "input": input}),
+    }
+}
+
+pub fn sweep(twin: &str, seed: u64) -> Value {
+    let st = drive(twin, None, seed, false);
+    json!({"twin": twin, "evaluations": st.evals, "member_checks": st.members, "disagreements": st.fails, "kinds": st.kinds, "first": st.first})
+}
